@@ -810,9 +810,10 @@ func headers(hs http.Header) []Header {
 }
 
 func postData(req *http.Request, logBody bool) (*PostData, error) {
-	// If the request has no body (no Content-Length and Transfer-Encoding isn't
-	// chunked), skip the post data.
-	if req.ContentLength <= 0 && len(req.TransferEncoding) == 0 {
+	// If the request has no body, skip the post data. The length fields alone do
+	// not tell: a body of unknown length has no Content-Length and no transfer
+	// coding either (net/http sends it chunked).
+	if req.Body == nil || req.Body == http.NoBody {
 		return nil, nil
 	}
 
